@@ -501,6 +501,23 @@ def _bind(fi, args, kws):
     return out
 
 
+def _origins(model, t, depth=0):
+    """bucket references reachable from a term, looking through private
+    copies (`dict(x)`, `list(x)`) made in this activation"""
+    out = set()
+    if depth > 6:
+        return out
+    for s in subterms(t):
+        b = model.sides.bucket(s)
+        if b is not None:
+            out.add(b)
+        if s[0] in ('D', 'L') and s in model.interp.obj_init and s is not t:
+            out |= _origins(model, model.interp.obj_init[s], depth + 1)
+    if t[0] in ('D', 'L') and t in model.interp.obj_init:
+        out |= _origins(model, model.interp.obj_init[t], depth + 1)
+    return out
+
+
 def rule_embed_sources(check, model, rules):
     """C08.R3 union hygiene, C08.R4 '+depths' present, C08.R5 depth arithmetic"""
     proto = model.proto
@@ -568,10 +585,10 @@ def rule_embed_sources(check, model, rules):
         key = '_signatures:_embed|deptharith|%s' % gtext
         if val[0] == 'C' and isinstance(val[1], str) and val[1].endswith(':merge_depths') and len(val[2]) == 2:
             a, b = val[2]
-            oa = [model.sides.bucket(s) for s in subterms(a)]
-            ok_outer = ('outer', 5) in oa and not any(mentions(a, depth_p) for _ in [0])
+            oa = _origins(model, a)
+            ok_outer = ('outer', 5) in oa and ('inner', 5) not in oa and not mentions(a, depth_p)
             binit = model.interp.obj_init.get(b, b)
-            inner_ok = any(model.sides.bucket(s) == ('inner', 5) for s in subterms(binit))
+            inner_ok = ('inner', 5) in _origins(model, binit) and ('outer', 5) not in _origins(model, binit)
             plus = any(s[0] == 'B' and s[1] == 'Add' and depth_p in (s[2], s[3]) for s in subterms(binit))
             if ok_outer and inner_ok and plus:
                 check.holds(rules['arith'], site(None, dep[-1].node), 'outer depths kept, inner depths + depth, combined by merge_depths',
